@@ -158,6 +158,35 @@ func c01ExtraSpecs(c *core.Check, rng *rand.Rand) ([]*aspec.ASpec, []string) {
 		a.Paths = []aspec.PathItem{{Template: t1, Ops: []aspec.Op{simpleOp("GET", t1)}}, {Template: t2, Ops: []aspec.Op{simpleOp("GET", t2)}}}
 		add("router:static-and-variable-child-same-name", a)
 	}
+	// template pairs whose inner nodes derive the same route function name (MC_RouteNames): every one must compile
+	if rsets, ok := routeNameSets(c, c.Tier == "thorough"); ok {
+		step := 1
+		if c.Tier != "thorough" {
+			step = len(rsets)/150 + 1
+		}
+		for i := rng.Intn(step); i < len(rsets); i += step {
+			// with operationIds (only the route functions are derived names) and without (the operations' names are
+			// derived too; where the model says those coincide the cell is the open finding)
+			for _, ids := range []bool{true, false} {
+				a, _ := mk()
+				a.Paths = nil
+				for ti, t := range rsets[i].T {
+					op := simpleOp("GET", t)
+					if ids {
+						op.OpID = fmt.Sprintf("op%d", ti)
+					}
+					a.Paths = append(a.Paths, aspec.PathItem{Template: t, Ops: []aspec.Op{op}})
+				}
+				axis := "routenames"
+				if !ids && rsets[i].OpCollides {
+					axis = "routenames-opcollide"
+				}
+				add(fmt.Sprintf("%s:%s+%s ids=%v", axis, aspec.TemplateString(rsets[i].T[0]), aspec.TemplateString(rsets[i].T[1]), ids), a)
+			}
+		}
+	} else {
+		return nil, nil
+	}
 	// names taken from the generator's own vocabulary: every word of an identifier or string in goag's sources and
 	// templates, as a literal path segment next to a variable segment (route function names), as a property name
 	// (field names next to generated methods) and as a query parameter name - the names most likely to meet a name
